@@ -946,6 +946,89 @@ def unit_hist(ctx):
         shutil.rmtree(tmp, ignore_errors=True)
 
 
+def _sub_state_ok(mesh):
+    """the part of the property that needs no reference lattice: every subregion has pmin < pmax and lies in the region"""
+    r = mesh.region
+    lo, hi = np.asarray(r.pmin, float), np.asarray(r.pmax, float)
+    if not np.all(lo < hi):
+        return "region has an empty direction"
+    slack = 4 * np.spacing(np.maximum(np.abs(lo), np.abs(hi)))
+    for k, v in mesh.subregions.items():
+        a, b = np.asarray(v.pmin, float), np.asarray(v.pmax, float)
+        if not np.all(a < b):
+            return f"subregion {k!r} has an empty direction"
+        if np.any(a < lo - slack) or np.any(b > hi + slack):
+            return f"subregion {k!r} [{a.tolist()}, {b.tolist()}] reaches outside the region [{lo.tolist()}, {hi.tolist()}]"
+    return None
+
+
+def unit_absorbing_steps(ctx):
+    """Steps so large that floating point absorbs a thin subregion before it absorbs the region: translation by 2^k cells,
+    scaling about a reference point 2^k cells away.  Refusing is fine, carrying the step out is fine - but a refusal leaves
+    the mesh (region AND every subregion) exactly as it was, an accepted step leaves every subregion non-empty and inside
+    the region, and the in-place form does what the copying form does."""
+    ndim = ctx.choose("ndim", [1, 2, 3])
+    op = ctx.choose("step", ["translate", "scale-about-far-point"])
+    k = ctx.choose("log2(distance in cells)", [49, 50, 51, 52, 53, 54, 55, 56, 60])
+    sign = ctx.choose("sign", [1.0, -1.0])
+    order = ctx.choose("subregion-order", ["wide-first", "thin-first", "thin-in-the-middle"])
+    form = ctx.choose("form", ["in", "copy"])
+    n = [10, 4, 2][:ndim]
+    cell = [1.0, 0.5, 2.0][:ndim]
+    pmin = [0.0, -1.0, 4.0][:ndim]
+    pmax = [a + c * m for a, c, m in zip(pmin, cell, n)]
+
+    def box(i, j):
+        return df.Region(p1=[pmin[0] + i * cell[0]] + pmin[1:], p2=[pmin[0] + j * cell[0]] + pmax[1:])
+
+    subs = {"wide-first": [("left", (0, 3)), ("thin", (3, 4)), ("right", (6, 10))],
+            "thin-first": [("thin", (3, 4)), ("left", (0, 3)), ("right", (6, 10))],
+            "thin-in-the-middle": [("left", (0, 3)), ("right", (6, 10)), ("thin", (4, 5)), ("last", (9, 10))]}[order]
+
+    def build():
+        return df.Mesh(region=df.Region(p1=pmin, p2=pmax), n=n, subregions={nm: box(*ij) for nm, ij in subs})
+
+    dist = sign * float(2 ** k) * cell[0]
+    mesh, other = build(), build()
+    before = C.mesh_snap(mesh)
+
+    def call(m, inplace):
+        if op == "translate":
+            return m.translate([dist] + [0.0] * (ndim - 1), inplace=inplace)
+        return m.scale(0.5, reference_point=[dist] + [0.5 * (a + b) for a, b in zip(pmin[1:], pmax[1:])], inplace=inplace)
+
+    ctx.step(2, f"{op} by 2^{k} cells ({form}) and the other form")
+    with np.errstate(all="ignore"):
+        raised, res = C.raises(call, mesh, form == "in")
+        raised_o, res_o = C.raises(call, other, form != "in")
+    ctx.check(2)
+    ctx.observe(raised, raised_o)
+    inst = ctx.key()
+    site = "Mesh.translate" if op == "translate" else "Mesh.scale"
+    if raised != raised_o:
+        ctx.fail(f"{site}/absorbing-step/forms-disagree", f"{form} form {'refused' if raised else 'accepted'}, the other form "
+                 f"{'refused' if raised_o else 'accepted'} ({type(res).__name__ if raised else ''}{type(res_o).__name__ if raised_o else ''})",
+                 instance=inst)
+    if raised:
+        if C.mesh_snap(mesh) != before:
+            now = {kk: (np.asarray(v.pmin).tolist(), np.asarray(v.pmax).tolist()) for kk, v in mesh.subregions.items()}
+            ctx.fail(f"{site}/absorbing-step/refusal-left-the-mesh-changed/{form}",
+                     f"{type(res).__name__}: {str(res)[:100]}; region now {np.asarray(mesh.region.pmin).tolist()}.."
+                     f"{np.asarray(mesh.region.pmax).tolist()}, subregions {now}", instance=inst)
+        return
+    got = mesh if form == "in" else res
+    ctx.check()
+    if form == "in" and res is not mesh:
+        ctx.fail(f"{site}/absorbing-step/in-place-form-returns-another-object", "", instance=inst)
+    if form == "copy" and C.mesh_snap(mesh) != before:
+        ctx.fail(f"{site}/absorbing-step/copying-form-modified-the-original", "", instance=inst)
+    why = _sub_state_ok(got)
+    if why:
+        ctx.fail(f"{site}/absorbing-step/accepted-step-leaves-a-broken-mesh", why, instance=inst)
+    elif list(got.subregions) != [nm for nm, _ in subs]:
+        ctx.fail(f"{site}/absorbing-step/subregions-lost", f"{list(got.subregions)}", instance=inst)
+
+
 def units(tier):
     return [
         {"name": "attach1d", "fn": unit_attach1d, "bound": None},
@@ -957,4 +1040,5 @@ def units(tier):
         {"name": "reload", "fn": unit_reload, "bound": None},
         {"name": "reload_other_mesh", "fn": unit_reload_other_mesh, "bound": None},
         {"name": "hist", "fn": unit_hist, "bound": None},
+        {"name": "absorbing_steps", "fn": unit_absorbing_steps, "bound": None},
     ]
